@@ -237,6 +237,7 @@ def check_predict(w, rep, f, mod):
     for c in x1.flat():
         deps |= poly_syms(c)
     need = set(sym_atoms_of(I["omega_m"])) | {I["dt"].s().single_atom()}
+    check_rk4_callables(w, rep, "C11.valid", "predict", lambda: w.callf(mod["predict"]), W)
     rep.check("C11.valid", "predict: x1 depends on the gyro rate and on dt", need <= deps, "x1 ignores %s" % [repr(a) for a in need - deps], where=W)
 
 
